@@ -41,7 +41,8 @@ class OsuToSM(ConvertBase):
         sms.background = osu.background_file_name
         sms.sample_start = osu.preview_time
         sms.sample_length = 10
-        sms.offset = 0.0
+        # Beat 0 of the .sm is the first timing point, not 0 ms
+        sms.offset = float(osu.bpms.offset.min()) if len(osu.bpms) else 0.0
 
         sm.chart_type = SMMapChartTypes.get_type(osu.stack().column.max() + 1)
 
